@@ -66,6 +66,21 @@ func (k LKey) Equals(o hmap.LinkedKey) bool {
 }
 func (k LKey) String() string { return fmt.Sprintf("K%d", k.ID) }
 
+// UKey is LKey with a dynamic type that does not support == (it has a slice field): a structure
+// that compares two stored keys with == instead of Equals panics at run time on it. Same
+// identity and hash as LKey{ID}. Used by the instances whose Config has UKeys set.
+type UKey struct {
+	ID  int64
+	Pad []byte
+}
+
+func (k UKey) Hash() uint { return LKey{k.ID}.Hash() }
+func (k UKey) Equals(o hmap.LinkedKey) bool {
+	x, ok := o.(UKey)
+	return ok && x.ID == k.ID
+}
+func (k UKey) String() string { return fmt.Sprintf("U%d", k.ID) }
+
 // Config selects the constructor and the initial bound of an instance.
 type Config struct {
 	Default bool    `json:"default"`        // use the default constructor (capacity 101, load factor 0.75)
@@ -73,6 +88,7 @@ type Config struct {
 	LF      float32 `json:"lf,omitempty"`   // load factor
 	Max     int     `json:"max,omitempty"`  // >0: SetMax(Max) right after construction
 	None    any     `json:"none,omitempty"` // non-nil: the NONE sentinel to install (int64 or float32), types with HasNone
+	UKeys   bool    `json:"uncomparable_keys,omitempty"` // LinkedMap/LinkedSet: keys are UKey (no == for their dynamic type) instead of LKey
 }
 
 // TypeDesc describes one of the thirteen linked types.
